@@ -363,3 +363,10 @@ Definition c04_sig_case (m body path : bytes) (q : option bytes) (hs : headers) 
 Definition c04_parts_case (m path : bytes) (q : option bytes) (hs : headers) :=
   let u := {| u_path := path; u_query := q |} in
   (sig_input_prefix m, sig_input_suffix hs u).
+
+(* the agent's own calls: the header list build_request assembles and the string it signs
+   (the MAC itself is computed by the check with an independent HMAC-SHA256) *)
+Definition c04_own_case (now m host path : bytes) (q : option bytes) (hs : headers) (body : option bytes) :=
+  let u := {| u_path := path; u_query := q |} in
+  let hdrs := own_base_headers now host body ++ map header_entry hs in
+  (hdrs, request_to_sign_input {| b_method := Some m; b_headers := Some hdrs; b_uri := Some u |} body).
